@@ -111,11 +111,17 @@ def rand_shape(rng, max_elems: int = 24) -> List[int]:
 def rand_tensor_desc(rng, max_elems: int = 24) -> Dict[str, Any]:
     dt = rng.choice(DTYPES)
     shape = rand_shape(rng, max_elems)
+    layout = rng.choice(LAYOUTS)
+    if layout == "channels_last":
+        # make it a real dense-but-not-row-major tensor: >= 2 channels and >= 2 spatial positions
+        cands = [[1, 2, 2, 1], [1, 2, 1, 2], [2, 2, 1, 2], [1, 3, 2, 2], [2, 2, 2, 2], [1, 2, 2, 1, 2], [1, 2, 1, 2, 2]]
+        cands = [c for c in cands if numel(c) <= max(max_elems, 4)]
+        shape = rng.choice(cands)
     es = esize(dt)
     data = b"".join(rand_elem_bytes(rng, es) for _ in range(numel(shape)))
     if dt == torch.bool:
         data = bytes(b & 1 for b in data)
-    return {"t": "tensor", "dtype": DT_NAME[dt], "shape": shape, "data": list(data), "layout": rng.choice(LAYOUTS)}
+    return {"t": "tensor", "dtype": DT_NAME[dt], "shape": shape, "data": list(data), "layout": layout}
 
 
 def build_tensor(d: Dict[str, Any]) -> torch.Tensor:
